@@ -55,7 +55,7 @@ class CmdWorld:
         raise ValueError(k)
 
 
-def gen_cmd(rng, mm, w, depth=0):
+def gen_cmd(rng, mm, w, depth=0, prefer_delete=()):
     """-> (spec, steals?) or None"""
     objs = list(range(len(w.objs)))
     k = rng.random()
@@ -79,6 +79,8 @@ def gen_cmd(rng, mm, w, depth=0):
             return None
         return ('Compound', [s for s, _ in subs]), any(st for _, st in subs)
     if k < .2:
+        if prefer_delete and rng.random() < .6:
+            return ('Delete', rng.choice(list(prefer_delete))), False
         return ('Delete', rng.choice(objs)), False
     f = rng.choice(mm.feats)
     if depth and f.ref and (f.cont or (f.opp is not None and mm.feats[f.opp].cont)):
@@ -189,6 +191,22 @@ def run_word(ctx, h, nletters, prefix_ops=12):
         if vs:
             line = f"extend {x} {f.fid} {' '.join(vs)}"
             w.apply(line); pre.append(line)
+    # … and with single-valued references pointed somewhere else than where they first pointed: the objects left
+    # behind (which may still be remembered as referenced) are preferred targets of Delete commands
+    left_behind = []
+    for _ in range(3):
+        cands = [(x, f) for f in mm.feats if f.ref and not f.many for x in g.objs_with(f) if w.slot(w.objs[x], f)]
+        if not cands:
+            break
+        x, f = rng.choice(cands)
+        old = w.slot(w.objs[x], f)[0]
+        v = g.value_for(f, x, True)
+        if v is None or v[0] == 'n' or w.val(v[0]) is old:
+            continue
+        line = f'set {x} {f.fid} {v[0]}'
+        if w.apply(line).startswith('ok'):
+            pre.append(line)
+            left_behind.append(w.oid(old))
     word = []
     shadow, idx = [], -1
     problems = []
@@ -201,7 +219,7 @@ def run_word(ctx, h, nletters, prefix_ops=12):
         letter = rng.random()
         before = w.dump()
         if letter < .55 or idx < 0 and letter < .8:
-            c = gen_cmd(rng, mm, w)
+            c = gen_cmd(rng, mm, w, prefer_delete=left_behind)
             if c is None:
                 continue
             spec, steals = c
